@@ -801,7 +801,9 @@ func (a *act) builtin(b *ssa.Builtin, c *ssa.CallCommon, args []Val, guard strin
 		res := fx.ctx.Fresh("appendres", SSlice)
 		fx.ctx.Assert(Eq(res, resT))
 		fx.ctx.Assert(Eq(Sel(h2, r), na))
-		elemR := func(idx string) string { return Sel(Sel(h2, r), App("sidx", res, idx)) }
+		// written exactly as element reads are written, (select (select heap (sbase s)) (sidx s i)), so that E-matching
+		// does not depend on the datatype theory having merged (sbase res) with the fresh array first
+		elemR := func(idx string) string { return Sel(Sel(h2, App("sbase", res)), App("sidx", res, idx)) }
 		fx.ctx.Assert(fmt.Sprintf("(forall ((i Int)) (! (=> (and (<= 0 i) (< i %s)) (= %s (select (select %s (sbase %s)) (sidx %s i)))) :pattern (%s) :pattern ((select (select %s (sbase %s)) (sidx %s i)))))", ls, elemR("i"), h, s.T, s.T, elemR("i"), h, s.T, s.T))
 		fx.ctx.Assert(fmt.Sprintf("(forall ((i Int)) (! (=> (and (<= 0 i) (< i %s)) (= (select %s i) (select (select %s (sbase %s)) (sidx %s i)))) :pattern ((select %s i))))", ls, na, h, s.T, s.T, na))
 		fx.ctx.Assert(fmt.Sprintf("(forall ((j Int)) (! (=> (and (<= %s j) (< j (+ %s %s))) (= (select %s j) (select (select %s (sbase %s)) (sidx %s (- j %s))))) :pattern ((select %s j))))", ls, ls, lt, na, h, t.T, t.T, ls, na))
